@@ -1818,8 +1818,11 @@ class AstEval:
     async def ast_listcomp(self, arg):
         """Evaluate list comprehension."""
         target_vars, save_values = await self.loopvar_scope_save(arg.generators)
-        result = await self.listcomp_loop(arg.generators, arg.elt)
-        await self.loopvar_scope_restore(target_vars, save_values)
+        try:
+            result = await self.listcomp_loop(arg.generators, arg.elt)
+        finally:
+            # also when the comprehension raises: the enclosing scope gets its variables back
+            await self.loopvar_scope_restore(target_vars, save_values)
         return result
 
     async def ast_tuple(self, arg):
@@ -1860,8 +1863,11 @@ class AstEval:
     async def ast_dictcomp(self, arg):
         """Evaluate dict comprehension."""
         target_vars, save_values = await self.loopvar_scope_save(arg.generators)
-        result = await self.dictcomp_loop(arg.generators, arg.key, arg.value)
-        await self.loopvar_scope_restore(target_vars, save_values)
+        try:
+            result = await self.dictcomp_loop(arg.generators, arg.key, arg.value)
+        finally:
+            # also when the comprehension raises: the enclosing scope gets its variables back
+            await self.loopvar_scope_restore(target_vars, save_values)
         return result
 
     async def ast_set(self, arg):
@@ -1890,8 +1896,11 @@ class AstEval:
     async def ast_setcomp(self, arg):
         """Evaluate set comprehension."""
         target_vars, save_values = await self.loopvar_scope_save(arg.generators)
-        result = await self.setcomp_loop(arg.generators, arg.elt)
-        await self.loopvar_scope_restore(target_vars, save_values)
+        try:
+            result = await self.setcomp_loop(arg.generators, arg.elt)
+        finally:
+            # also when the comprehension raises: the enclosing scope gets its variables back
+            await self.loopvar_scope_restore(target_vars, save_values)
         return result
 
     async def ast_subscript(self, arg):
